@@ -29,6 +29,9 @@ SNIPPETS = [
     ("fullM1", "Doe v. Poe, 3 Marsh. 45 (Ky. 1820).", "FullCaseCitation", 0),  # A.K. Marsh.
     ("fullM2", "Doe v. Poe, 3 Marsh. 45 (Ky. 1830).", "FullCaseCitation", 0),  # J.J. Marsh.: same matched text as fullM1, other document
     ("fullM3", "Doe v. Poe, 3 J.J. Marsh. 45 (Ky. 1830).", "FullCaseCitation", 0),  # the same document as fullM2
+    ("fullM4", "Doe v. Poe (1820) 3 Marsh. 45; and so on", "FullCaseCitation", 0),  # the same document as fullM1, year written before the citation
+    ("fullMac", "Mac v. Arthur, 4 U.S. 40 (1990).", "FullCaseCitation", 0),
+    ("supraMacArthur", "See MacArthur, supra, at 5.", "SupraCitation", 0),  # in neither party name, only in their concatenation
     ("fullC", "Bar v. Baker, 2 F.2d 20 (1992).", "FullCaseCitation", 0),
     ("fullC3", "Kim v. Lee, 2 F.3d 20 (1995).", "FullCaseCitation", 0),  # same volume/page as fullC, sibling series
     ("fullP", "Roe v. Wade, 410 U.S. ___ (1973).", "FullCaseCitation", 0),
@@ -66,7 +69,7 @@ SNIPPETS = [
 ]
 NAMES = [s[0] for s in SNIPPETS]
 CORE12 = ["fullA", "fullA0", "fullA2", "fullA3", "fullB", "fullC", "fullC3", "fullP", "fullQ", "fullU", "shortAmb", "shortAmbJones", "shortP", "shortPQux", "supraBar", "refJones", "idNoPin", "idValid", "idEdgeOut", "unknown"]
-CLASS = {"fullA": "A", "fullA2": "A", "fullA0": "A", "fullA3": "A", "fullA4": "A", "fullA5": "A", "fullBrown": "Brown", "fullM1": "MA", "fullM2": "MJ", "fullM3": "MJ", "jour2": "jour", "lawU1": "lawU", "lawU2": "lawU", "fullB": "B", "fullC": "C", "fullC3": "C3", "fullP": "P", "fullQ": "Q", "fullU": "U", "law": "law", "lawR1": "lawR1", "lawR2": "lawR2", "jour": "jour", "jourP": "jourP"}
+CLASS = {"fullA": "A", "fullA2": "A", "fullA0": "A", "fullA3": "A", "fullA4": "A", "fullA5": "A", "fullBrown": "Brown", "fullM1": "MA", "fullM4": "MA", "fullMac": "Mac", "fullM2": "MJ", "fullM3": "MJ", "jour2": "jour", "lawU1": "lawU", "lawU2": "lawU", "fullB": "B", "fullC": "C", "fullC3": "C3", "fullP": "P", "fullQ": "Q", "fullU": "U", "law": "law", "lawR1": "lawR1", "lawR2": "lawR2", "jour": "jour", "jourP": "jourP"}
 PLACEHOLDER_CLASSES = ("P", "Q", "U")  # every instance is its own resource: the canonical state counts them (capped at 2)
 K = {}
 
@@ -86,6 +89,7 @@ def build_alphabet():
     assert K["refJones"].metadata.defendant == "Jones"
     assert norm_reporter(K["fullM1"]) == "A.K. Marsh." and norm_reporter(K["fullM2"]) == norm_reporter(K["fullM3"]) == "J.J. Marsh."
     assert K["fullM1"].matched_text() == K["fullM2"].matched_text()
+    assert K["fullM4"].year == 1820 and K["supraMacArthur"].metadata.antecedent_guess == "MacArthur"
     return K
 
 
@@ -124,6 +128,29 @@ def db_norm(written):
     return _DB_NORM.get(written)
 
 
+_DB_DATED = {}
+
+
+def db_norm_by_year(written, year):
+    """For a spelling that the database maps to several editions: the one edition among them that was published in
+    `year` (edition dates from reporters-db), if there is exactly one; None otherwise."""
+    if not _DB_DATED:
+        from datetime import date
+
+        from reporters_db import REPORTERS
+
+        for key, srcs in REPORTERS.items():
+            for src in srcs:
+                eds = src["editions"]
+                for name, ed in eds.items():
+                    _DB_DATED.setdefault(name, {})[name] = (ed.get("start"), ed.get("end"))
+                for var, name in src["variations"].items():
+                    _DB_DATED.setdefault(var, {})[name] = (eds[name].get("start"), eds[name].get("end"))
+    cands = _DB_DATED.get(written) or {}
+    ok = [n for n, (s, e) in cands.items() if (s is None or s.year <= year) and (e is None or e.year >= year)]
+    return ok[0] if len(ok) == 1 and len(cands) > 1 else None
+
+
 def norm_reporter(c):
     """Normalised reporter: what the database maps the written string to when that is unambiguous (so that the oracle
     does not depend on whether the code made its guess); for ambiguous strings the guessed edition's own name (not its
@@ -132,6 +159,10 @@ def norm_reporter(c):
     n = db_norm(w)
     if n is not None:
         return n
+    if getattr(c, "year", None):
+        n = db_norm_by_year(w, c.year)  # ambiguous spelling: the edition the citation's own year identifies
+        if n is not None:
+            return n
     g = c.edition_guess
     return g.short_name if g is not None else w
 
